@@ -35,7 +35,10 @@ static Problem gen_problem(Rng & rg)
   Problem p;
   const int m = 1 + rg.below(40), n = 1 + rg.below(40);
   p.J.resize(m, n);
-  const double sc = rg.loguni(1e-3, 1e3);
+  // magnitude regime: ordinary, or small-magnitude data (the minimiser is invariant under a common scaling of
+  // (J, D) and linear in r, so tiny J and r must be solved just as accurately)
+  const bool tiny = rg.coin(0.25);
+  const double sc = tiny ? rg.loguni(1e-10, 1e-3) : rg.loguni(1e-3, 1e3);
   const double dens = rg.coin(0.5) ? 1.0 : rg.range(0.05, 0.6);
   const bool wide_entries = rg.coin(0.3);
   for (int i = 0; i < m; ++i)
@@ -70,7 +73,11 @@ static Problem gen_problem(Rng & rg)
   }
   if (m < n && p.kind == "fullrank") p.kind = "wide";
   p.d = Eigen::VectorXd::NullaryExpr(n, [&]() { return rg.coin(0.3) ? 1.0 : rg.loguni(1e-6, 1e3); });
-  const double rs = rg.loguni(1e-3, 1e3);
+  const double rs = tiny ? rg.loguni(1e-14, 1e-3) : rg.loguni(1e-3, 1e3);
+  if (tiny) {
+    p.kind += "+tiny";
+    if (rg.coin()) p.d *= sc;  // Marquardt-like scaling d ~ |J|
+  }
   p.r             = Eigen::VectorXd::NullaryExpr(m, [&]() { return rs * rg.sym(); });
   p.lambda        = rg.loguni(1e-6, 1e6);
   return p;
